@@ -526,9 +526,12 @@ def dst_width(ins):
 def two_or_three(M, ins):
     """(dst op, a lanes, b lanes, n) for `op dst, src` (legacy) and `op dst, a, b` (VEX)"""
     n = dst_width(ins)
-    if len(ins.ops) == 2:
-        return ins.ops[0], M.vsrc(ins, ins.ops[0], n), M.vsrc(ins, ins.ops[1], n), n
-    return ins.ops[0], M.vsrc(ins, ins.ops[1], n), M.vsrc(ins, ins.ops[2], n), n
+    ops = ins.ops
+    if re.fullmatch(r"-?(0x[0-9a-f]+|\d+)", ops[-1].strip()):
+        ops = ops[:-1]
+    if len(ops) == 2:
+        return ops[0], M.vsrc(ins, ops[0], n), M.vsrc(ins, ops[1], n), n
+    return ops[0], M.vsrc(ins, ops[1], n), M.vsrc(ins, ops[2], n), n
 
 
 def lanewise(fn):
